@@ -24,6 +24,7 @@ import (
 	"os"
 	"os/exec"
 	"path/filepath"
+	"runtime"
 	"sort"
 	"strconv"
 	"strings"
@@ -307,11 +308,13 @@ type c14Plan struct {
 	k       int    // chunk index of the fault
 	mode    int    // sendkill: 0 = chunk k is not processed, 1 = the receiver still processes it
 	big     []int  // sizes of big files (each is placed on a non-owner)
+	bigTo   int    // when >= 0: the big files are owned by this node (ids are searched for) ...
+	bigFrom int    // ... and placed on this one
 	real    bool   // real bbolt shards + read-back
 	nUsers  int
 	victim  int // node index: down / child process
 	subset  uint64
-	comment string
+	marked  bool // bigTo / bigFrom are set
 }
 
 type c14Step struct {
@@ -488,6 +491,13 @@ func c14RunScenario(rc *runCtx, r *rand.Rand, cl *c14Cluster, pl c14Plan, t *c14
 	// big files: each on a node that is NOT its new owner, so that it has to move
 	for bi, size := range pl.big {
 		id := fmt.Sprintf("big%d-%d", tag, bi)
+		if pl.bigTo >= 0 && pl.bigFrom >= 0 {
+			for try := 0; newOwner(id) != pl.bigTo && try < 200; try++ {
+				id = fmt.Sprintf("big%d-%d-%d", tag, bi, try)
+			}
+			raws = append(raws, rawFile{fmt.Sprintf("u%d-big", tag), "c0", id, pl.bigFrom, c14Fill(r, size)})
+			continue
+		}
 		own := newOwner(id)
 		var cand []int
 		for _, i := range all {
@@ -552,7 +562,6 @@ func c14RunScenario(rc *runCtx, r *rand.Rand, cl *c14Cluster, pl c14Plan, t *c14
 		hookKill  *c14Child
 		hookMode  int
 		hookFired bool
-		lastHook  time.Time
 	)
 	cluster.VerifFaultHook = func(point string, n int) error {
 		if point != "sendshard" {
@@ -560,7 +569,6 @@ func c14RunScenario(rc *runCtx, r *rand.Rand, cl *c14Cluster, pl c14Plan, t *c14
 		}
 		hookMu.Lock()
 		defer hookMu.Unlock()
-		lastHook = time.Now()
 		if hookKill != nil {
 			if n == hookK && !hookFired {
 				hookFired = true
@@ -579,24 +587,11 @@ func c14RunScenario(rc *runCtx, r *rand.Rand, cl *c14Cluster, pl c14Plan, t *c14
 	defer func() { cluster.VerifFaultHook = nil }()
 	// syncShards / syncUserCollections return at the FIRST error while the workers of the other
 	// destinations keep running (in production the process then exits, log.Fatal). Inside one process
-	// they have to be waited for: no chunk has arrived anywhere for `idle`.
+	// they have to be waited for: until no goroutine is inside the sync functions or the two RPC handlers.
 	quiesce := func() {
-		idle := 80 * time.Millisecond
-		if len(pl.big) > 0 {
-			idle = 600 * time.Millisecond
-		}
-		start := time.Now()
-		for {
-			hookMu.Lock()
-			last := lastHook
-			hookMu.Unlock()
-			if last.Before(start) {
-				last = start
-			}
-			if time.Since(last) > idle {
-				return
-			}
-			time.Sleep(10 * time.Millisecond)
+		deadline := time.Now().Add(20 * time.Second)
+		for c14Busy() && time.Now().Before(deadline) {
+			time.Sleep(4 * time.Millisecond)
 		}
 	}
 
@@ -682,8 +677,8 @@ func c14RunScenario(rc *runCtx, r *rand.Rand, cl *c14Cluster, pl c14Plan, t *c14
 					st.ok = 0
 				}
 			}
-			if st.ok == 0 && childAlive() {
-				quiesce()
+			if st.ok != 1 {
+				quiesce() // also: the receiver may still be writing the chunk during which the sender was killed
 			}
 			hookMu.Lock()
 			hookK, hookKill = -1, nil
@@ -734,6 +729,7 @@ func c14RunScenario(rc *runCtx, r *rand.Rand, cl *c14Cluster, pl c14Plan, t *c14
 		}
 		steps = append(steps, st)
 	}
+	childDied := child != nil && !child.alive()
 	if childAlive() {
 		child.kill()
 	}
@@ -831,7 +827,33 @@ func c14RunScenario(rc *runCtx, r *rand.Rand, cl *c14Cluster, pl c14Plan, t *c14
 			"records": nRecs, "files": nFiles, "files_to_move": nMoveF, "records_to_move": nMoveR, "big": pl.big, "real_collections": len(reals),
 			"run2_all_ok": allOk, "readback": readback})
 	}
-	return c14Result{term: term, nMoveF: nMoveF, nMoveR: nMoveR, nFiles: nFiles, nRecs: nRecs}, nil
+	res = c14Result{term: term, nMoveF: nMoveF, nMoveR: nMoveR, nFiles: nFiles, nRecs: nRecs, childDied: childDied}
+	orig := map[string]c14FileObs{}
+	for _, i := range all {
+		for _, f := range init0[i].files {
+			orig[f.path()] = f
+		}
+	}
+	seen := map[string]int{}
+	for _, i := range all {
+		for _, f := range mid[i].files {
+			seen[f.path()]++
+			if o := orig[f.path()]; o.size != f.size || o.hash != f.hash {
+				res.midPartial++
+			}
+		}
+	}
+	for _, n := range seen {
+		if n > 1 {
+			res.midTwice++
+		}
+	}
+	for _, st := range steps {
+		if st.ok == 0 {
+			res.run1Errors++
+		}
+	}
+	return res, nil
 }
 
 func idxList(servers []string, cl *c14Cluster) []int {
@@ -844,6 +866,27 @@ func idxList(servers []string, cl *c14Cluster) []int {
 		}
 	}
 	return out
+}
+
+// c14Busy: is any goroutine of this process inside a sync function or one of the two RPC handlers?
+func c14Busy() bool {
+	buf := make([]byte, 1<<20)
+	for {
+		n := runtime.Stack(buf, true)
+		if n < len(buf) {
+			buf = buf[:n]
+			break
+		}
+		buf = make([]byte, 2*len(buf))
+	}
+	s := string(buf)
+	for _, pat := range []string{"(*ClusterNode).sendShardFile", "(*ClusterNode).syncShards", "(*ClusterNode).syncUserCollections",
+		"(*ClusterNode).RPCSendShard", "(*ClusterNode).RPCSetNodeKeyValue"} {
+		if strings.Contains(s, pat) {
+			return true
+		}
+	}
+	return false
 }
 
 // ---------------------------------------------------------------- child bookkeeping
@@ -894,6 +937,10 @@ type c14Result struct {
 	term           string
 	nMoveF, nMoveR int
 	nFiles, nRecs  int
+	midPartial     int  // destination files of the snapshot after run 1 that are not a complete original
+	midTwice       int  // files that two nodes hold after run 1
+	run1Errors     int  // Syncs of run 1 that returned an error
+	childDied      bool // the child process exited / was killed by the fault
 }
 
 func runC14(rc *runCtx) error {
@@ -918,6 +965,9 @@ func runC14(rc *runCtx) error {
 		cl.roots = append(cl.roots, filepath.Join(tmp, fmt.Sprintf("node%d", i)))
 	}
 	nfiles := 4
+	if rc.thorough() {
+		nfiles = 12
+	}
 	var terms []*c14Term
 	for i := 0; i < nfiles; i++ {
 		cf, err := newCaseFile(filepath.Join(rc.outDir, fmt.Sprintf("cases_C14_%02d.v", i)), []string{"Bytes", "Pack", "Model_C14", "Run_C14"}, "c14case")
@@ -973,6 +1023,18 @@ func runC14(rc *runCtx) error {
 		}
 		if pl.real {
 			hist["real bbolt shards + read-back"]++
+		}
+		if res.midPartial > 0 {
+			hist["after run 1: partial file on a destination"]++
+		}
+		if res.midTwice > 0 {
+			hist["after run 1: a file on two nodes"]++
+		}
+		if res.run1Errors > 0 {
+			hist["run 1: some Sync returned an error"]++
+		}
+		if res.childDied {
+			hist["run 1: child process exited / killed at the fault point"]++
 		}
 		hist["files to move "+bucket(res.nMoveF)]++
 		hist["records to move "+bucket(res.nMoveR)]++
@@ -1064,6 +1126,9 @@ func c14Plans(rc *runCtx, r *rand.Rand) []c14Plan {
 			}
 			o := (k + 1 + 2*rep) % 5
 			pl.big = []int{2*C + 1, bigSizes[o], bigSizes[(o+2)%5]}
+			for rot := (k + 1 + rep) % 3; rot > 0; rot-- { // which file a sender meets first changes from scenario to scenario
+				pl.big = append(pl.big[1:], pl.big[0])
+			}
 			plans = append(plans, pl)
 		}
 	}
@@ -1072,7 +1137,17 @@ func c14Plans(rc *runCtx, r *rand.Rand) []c14Plan {
 		for k := 0; k <= 3; k++ {
 			sh := relabel(two[(k+rep)%len(two)])
 			// the receiver: the node that stays / joins
-			pl := c14Plan{kind: sh.kind, old: sh.old, new: sh.new, nUsers: 2, fault: "recvkill", k: k, victim: sh.new[len(sh.new)-1], big: []int{2*C + 1}}
+			recv := sh.new[len(sh.new)-1]
+			other := func(x int, all []int) int {
+				for _, y := range all {
+					if y != x {
+						return y
+					}
+				}
+				return -1
+			}
+			pl := c14Plan{kind: sh.kind, old: sh.old, new: sh.new, nUsers: 2, fault: "recvkill", k: k, victim: recv, big: []int{2*C + 1},
+				bigTo: recv, bigFrom: other(recv, c14Union(sh.old, sh.new)), marked: true}
 			if k <= 1 {
 				pl.big = nil // small files have the chunk indices 0 and 1
 				pl.nUsers = 4
@@ -1080,7 +1155,12 @@ func c14Plans(rc *runCtx, r *rand.Rand) []c14Plan {
 			plans = append(plans, pl)
 			for mode := 0; mode <= 1; mode++ {
 				sh := relabel(two[(k+mode+rep)%len(two)])
-				pl := c14Plan{kind: sh.kind, old: sh.old, new: sh.new, nUsers: 2, fault: "sendkill", k: k, mode: mode, victim: sh.old[0], big: []int{2*C + 1}}
+				to := sh.new[len(sh.new)-1]
+				if to == sh.old[0] {
+					to = sh.new[0]
+				}
+				pl := c14Plan{kind: sh.kind, old: sh.old, new: sh.new, nUsers: 2, fault: "sendkill", k: k, mode: mode, victim: sh.old[0], big: []int{2*C + 1},
+					bigTo: to, bigFrom: sh.old[0], marked: true}
 				if k <= 1 && mode == 0 {
 					pl.big = nil
 					pl.nUsers = 4
@@ -1094,6 +1174,11 @@ func c14Plans(rc *runCtx, r *rand.Rand) []c14Plan {
 		for i, f := range []string{"none", "chunk", "phase"} {
 			sh := relabel(shapes[[]int{1, 5, 7}[(i+rep)%3]])
 			plans = append(plans, c14Plan{kind: sh.kind, old: sh.old, new: sh.new, nUsers: 2, fault: f, k: 1, subset: 15, real: true})
+		}
+	}
+	for i := range plans {
+		if !plans[i].marked {
+			plans[i].bigTo, plans[i].bigFrom = -1, -1
 		}
 	}
 	return plans
